@@ -280,9 +280,9 @@ func c06b(c *Ctx) {
 	if fn := c.Fn("parser.getMovementsKey"); fn != nil {
 		ok := false
 		got := ""
-		for _, ws := range writeSites(fn) {
+		for _, ws := range c.sitesOf(fn) {
 			got = ws.format
-			if ws.isFmt && strings.HasPrefix(ws.format, "%s") && len(ws.format) > 2 && len(ws.args) == 1 && strings.HasSuffix(c.term(fn, ws.args[0]), ".Literal") {
+			if ws.isFmt && strings.HasPrefix(ws.format, "%s") && len(ws.format) > 2 && len(ws.argT) == 1 && strings.HasSuffix(ws.argT[0], ".Literal") {
 				sep := ws.format[2:]
 				r := rune(sep[0])
 				if !(r == '_' || r >= '0' && r <= '9' || r >= 'a' && r <= 'z' || r >= 'A' && r <= 'Z' || r > 127) {
@@ -338,7 +338,7 @@ func c06e(c *Ctx) {
 		}
 		// its result is written to the output
 		written := false
-		for _, ws := range writeSites(fn) {
+		for _, ws := range c.sitesOf(fn) {
 			if ws.arg == calls[0].(ssa.Value) {
 				written = true
 			}
@@ -354,7 +354,7 @@ func c06e(c *Ctx) {
 	c.Check(okM, "Emit/movements-dispatched", c.W.FuncPos(fn), "movement statements (explicit and hoisted) are dispatched to the movement emitter", "Emit does not dispatch *ast.MovementStatement to emitMovementStatement")
 	// every handled top-level type: output written
 	nW := 0
-	for _, ws := range writeSites(fn) {
+	for _, ws := range c.sitesOf(fn) {
 		if _, isCall := ws.arg.(*ssa.Call); isCall {
 			nW++
 		} else if _, isEx := ws.arg.(*ssa.Extract); isEx {
